@@ -331,6 +331,11 @@ def finish(ctx, lean, module, level="proof"):
     (VERIF / "evidence" / f"{ctx.prop}.json").write_text(json.dumps(ev, indent=1))
     for l in lines:
         print(l)
+    comp = {}
+    for mm in ctx.mismatches:
+        comp[mm["component"]] = comp.get(mm["component"], 0) + 1
+    if comp:
+        print(f"[{ctx.prop}] correspondence mismatches by component: {comp}")
     print(f"[{ctx.prop}] tier={ctx.tier} seed={ctx.seed} obligations={lean['obligations']} discharged={lean['discharged']} "
           f"cases={ctx.evals} distinct_nontrivial={len(ctx.sigs)} mismatches={len(ctx.mismatches)} "
           f"failures={len(ctx.failures)} wall={wall}s")
